@@ -99,6 +99,7 @@ type Recorder struct {
 	ViolCount    int               `json:"violCount"`
 	Inconclusive []string          `json:"inconclusive"`
 	Notes        map[string]string `json:"notes"`
+	Broken       []string          `json:"broken"` // harness faults (never verdicts)
 
 	hset    map[uint64]struct{}
 	sigSeen map[string]int
@@ -148,6 +149,13 @@ func (r *Recorder) Sample(class string, s any) {
 	}
 }
 func (r *Recorder) WantSample(class string) bool { return len(r.Samples[class]) < 2 }
+
+// HarnessFault records a defect of the checking machinery itself (exit 2, never a verdict).
+func (r *Recorder) HarnessFault(format string, a ...any) {
+	if len(r.Broken) < 20 {
+		r.Broken = append(r.Broken, fmt.Sprintf(format, a...))
+	}
+}
 
 func (r *Recorder) Inconc(format string, a ...any) {
 	if len(r.Inconclusive) < 200 {
